@@ -5,6 +5,10 @@
 // the raw texts (internal observable).
 //
 // case line:  <id> f=<flags int> w=<line length> c=<cmd>,<cmd>,...|- [t1=<b|a|u>:<hex>] [t2=<b|a|u>:<hex>] a:<...> ...
+//   g:<keyspec>:<flags int>:<desc hex>   starts a sub-group: a handler created with Handler( main, flags) (shares the
+//         usage settings of the main handler); the a: tokens that follow belong to it; after all arguments of the
+//         main handler it is added with main.addArgument( keyspec, subHandler, desc)
+//   cmd s<idx>: the key of sub-group idx followed by -h (or --help): usage of the sub-group
 //   t1 / t2: usage texts (IUsageText) given to the constructor: position before / after / unused, text
 //   cmd:  ph (--print-hidden)  pd (--print-deprecated)  hs (--help-short)  hl (--help-long)
 //         h (-h)  H (--help)  ha=<hex key> (--help-arg <key>)
@@ -143,6 +147,9 @@ std::string run_case(const std::vector<std::string>& w)
 {
    int flags = 0, width = 80;
    std::vector<std::string> cmds, argToks;
+   std::vector<int> argOwner;                       // -1: main handler, else index of the sub-group
+   struct Group { std::string keyspec; int flags; std::string desc; };
+   std::vector<Group> groups;
    std::unique_ptr<TextUsage> txt1, txt2;
    for (size_t t = 1; t < w.size(); ++t)
    {
@@ -150,20 +157,34 @@ std::string run_case(const std::vector<std::string>& w)
       if (tok.rfind("f=", 0) == 0) flags = std::stoi(tok.substr(2));
       else if (tok.rfind("w=", 0) == 0) width = std::stoi(tok.substr(2));
       else if (tok.rfind("c=", 0) == 0) cmds = vf::split(tok.substr(2), ',');
-      else if (tok.rfind("a:", 0) == 0) argToks.push_back(tok);
+      else if (tok.rfind("a:", 0) == 0) { argToks.push_back(tok); argOwner.push_back(static_cast<int>(groups.size()) - 1); }
+      else if (tok.rfind("g:", 0) == 0)
+      {
+         auto f = fields(tok);
+         if (f.size() != 4) return "setup:invalid_argument ##";
+         groups.push_back({ f[1], std::stoi(f[2]), vf::unhexs(f[3]) });
+      }
       else if (tok.rfind("t1=", 0) == 0) txt1 = makeText(tok.substr(3));
       else if (tok.rfind("t2=", 0) == 0) txt2 = makeText(tok.substr(3));
    }
    std::ostringstream out, err;
    Vars V;
    std::unique_ptr<pa::Handler> h;
+   std::vector<std::unique_ptr<pa::Handler>> subs;
    int checkNo = 0;
    try
    {
       h.reset(new pa::Handler(out, err, flags, txt1.get(), txt2.get()));
       if (width != 80) h->setUsageLineLength(width);
+      for (auto& g : groups)
+      {
+         subs.emplace_back(new pa::Handler(*h, g.flags));
+         if (width != 80) subs.back()->setUsageLineLength(width);
+      }
       for (auto& a : argToks)
       {
+         const int owner = argOwner[&a - &argToks[0]];
+         pa::Handler* target = owner < 0 ? h.get() : subs[owner].get();
          auto f = fields(a);
          if (f.size() != 10) throw std::invalid_argument("argument token");
          const std::string keyspec = f[1], kind = f[2], iv = vf::unhexs(f[3]), letters = f[4];
@@ -177,7 +198,7 @@ std::string run_case(const std::vector<std::string>& w)
          else if (kind == "o") { V.o.emplace_back(new std::optional<int>()); dest = pa::destination(*V.o.back(), vname); }
          else if (kind == "v") { V.v.emplace_back(new std::vector<int>()); dest = pa::destination(*V.v.back(), vname); }
          else throw std::invalid_argument("kind");
-         TypedArgBase* ta = h->addArgument(keyspec, dest, desc);
+         TypedArgBase* ta = target->addArgument(keyspec, dest, desc);
          for (char c : letters)
          {
             if (c == 'm') ta->setIsMandatory();
@@ -196,6 +217,7 @@ std::string run_case(const std::vector<std::string>& w)
                               { return new TextConstraint(text, cc); });
          }
       }
+      for (size_t g = 0; g < groups.size(); ++g) h->addArgument(groups[g].keyspec, *subs[g], groups[g].desc);
    } catch (const std::exception& e)
    {
       return std::string("setup:") + excClass(e) + " ##";
@@ -210,6 +232,14 @@ std::string run_case(const std::vector<std::string>& w)
       else if (c == "hl") words.push_back("--help-long");
       else if (c == "h") words.push_back("-h");
       else if (c == "H") words.push_back("--help");
+      else if (c[0] == 's' && c.size() > 1 && isdigit(static_cast<unsigned char>(c[1])))
+      {
+         const Group& g = groups.at(std::stoul(c.substr(1)));
+         // first key of the specification, with its dash(es)
+         std::string k = g.keyspec.substr(0, g.keyspec.find(','));
+         words.push_back((k.size() == 1 ? "-" : "--") + k);
+         words.push_back((g.flags & 1) ? "-h" : "--help");
+      }
       else if (c.rfind("ha=", 0) == 0) { words.push_back("--help-arg"); words.push_back(vf::unhexs(c.substr(3))); }
    }
    std::vector<std::unique_ptr<char[]>> store;
